@@ -58,7 +58,7 @@ def handle (w : World) (line : String) : World × String :=
   | ["dnsresp", resp, hasq, rok, h, q, ttl, key] =>
     match strOfHex? h, q.toNat?, strOfHex? key with
     | some h, some q, some key =>
-      let t : Option Nat := if ttl = "-" then none else ttl.toNat?
+      let t : List Nat := if ttl = "-" then [] else (ttl.splitOn ",").filterMap (·.toNat?)
       let gate := resp == "1" && hasq == "1" && rok == "1"
       let r := dnsResp w (resp == "1") (hasq == "1") (rok == "1") h q t key
       (r.1, if !gate then "skip" else if r.2 then "ok" else "bypass")
